@@ -9,6 +9,27 @@ use crate::stats::{site_class, Stats, C};
 use std::fmt;
 use std::io;
 
+/// Set when re-entrant operations are switched off (after one of them deadlocked: the code under
+/// test holds a lock across the sink call).  `Reenter` decisions then behave like `Accept`.
+pub static NO_REENTER: std::sync::atomic::AtomicBool = std::sync::atomic::AtomicBool::new(false);
+/// Number of re-entrant operations currently executing, and a counter that moves whenever a run
+/// or a re-entrant operation completes; the watchdog in main.rs reads both.
+pub static NESTED_IN_FLIGHT: std::sync::atomic::AtomicI64 = std::sync::atomic::AtomicI64::new(0);
+pub static PROGRESS: std::sync::atomic::AtomicU64 = std::sync::atomic::AtomicU64::new(0);
+
+fn call_nested(f: &dyn Fn() -> Option<String>) -> Option<String> {
+    use std::sync::atomic::Ordering::SeqCst;
+    NESTED_IN_FLIGHT.fetch_add(1, SeqCst);
+    let r = f();
+    NESTED_IN_FLIGHT.fetch_sub(1, SeqCst);
+    PROGRESS.fetch_add(1, SeqCst);
+    r
+}
+
+fn reenter_enabled() -> bool {
+    !NO_REENTER.load(std::sync::atomic::Ordering::Relaxed)
+}
+
 /// A re-entrant operation supplied by the run: performs another operation of the crate on the
 /// current thread and returns a description if its result is not what it must be.
 pub type Nested<'a> = Option<&'a dyn Fn() -> Option<String>>;
@@ -173,11 +194,11 @@ impl<'a> io::Write for SimWriter<'a> {
                 Ok(len)
             }
             WDec::Reenter => {
-                if let Some(f) = self.nested {
+                if let (Some(f), true) = (self.nested, reenter_enabled()) {
                     self.ctl.reentered += 1;
                     self.stats.inc(C::w_reenter);
                     self.stats.reach.insert((site, 12, 1));
-                    match f() {
+                    match call_nested(f) {
                         None => self.stats.inc(C::nested_ops_ok),
                         Some(e) => {
                             self.stats.inc(C::nested_ops_wrong);
@@ -502,10 +523,10 @@ impl<'a> io::Read for SimReader<'a> {
                 Ok(n)
             }
             RDec::Reenter => {
-                if let Some(f) = self.nested {
+                if let (Some(f), true) = (self.nested, reenter_enabled()) {
                     self.reentered += 1;
                     self.stats.inc(C::r_reenter);
-                    match f() {
+                    match call_nested(f) {
                         None => self.stats.inc(C::nested_ops_ok),
                         Some(e) => {
                             self.stats.inc(C::nested_ops_wrong);
@@ -628,11 +649,11 @@ impl<'a> fmt::Write for SimFmtSink<'a> {
                 Ok(())
             }
             FDec::Reenter => {
-                if let Some(f) = self.nested {
+                if let (Some(f), true) = (self.nested, reenter_enabled()) {
                     self.reentered += 1;
                     self.stats.inc(C::p_reenter);
                     self.stats.reach.insert((site, 12, 0));
-                    match f() {
+                    match call_nested(f) {
                         None => self.stats.inc(C::nested_ops_ok),
                         Some(e) => {
                             self.stats.inc(C::nested_ops_wrong);
